@@ -188,9 +188,8 @@ where
         for (key, cache) in self.cache.iter() {
             let key_bytes = key.encode_vec();
             let cache_bytes = cache.encode_vec();
-            if cache.is_old(block_number) {
-                self.cache_db.delete(&key_bytes)?;
-            } else {
+            let is_old = cache.is_old(block_number);
+            if !is_old {
                 self.cache_db.put(&key_bytes, &cache_bytes)?;
             }
 
@@ -198,6 +197,12 @@ where
                 self.db.put(&key_bytes, &value.encode_vec())?;
             } else {
                 self.db.delete(&key_bytes)?;
+            }
+
+            if is_old {
+                // An old history is dropped only after the value it explains has reached the disk:
+                // if the process dies in between, a reorg still finds the history and can redo its work
+                self.cache_db.delete(&key_bytes)?;
             }
         }
 
